@@ -169,6 +169,19 @@ func (g *thrGroup) reconstructStateful(run *mon.Run, signers []int, trusted bool
 		shareBuf = make([]byte, 48)
 		rep["reused_buffers"] = true
 	}
+	// controlOK: the same shares from fresh slices on a fresh object reconstruct correctly (so a failure
+	// seen with reused buffers is about the buffers, not about the reconstruction itself)
+	controlOK := func() bool {
+		c, e := g.inspector()
+		if e != nil {
+			return false
+		}
+		for _, sg := range signers {
+			_, _ = c.TrustedAdd(sg, append([]byte{}, g.share[sg]...))
+		}
+		o, e := c.ThresholdSignature()
+		return e == nil && bytes.Equal(o, g.E)
+	}
 	run.Guard("stateful-sequence", rep, func() {
 		defer func() {
 			for i := range shareBuf {
@@ -194,7 +207,7 @@ func (g *thrGroup) reconstructStateful(run *mon.Run, signers []int, trusted bool
 			} else {
 				valid, enough, err = ins.VerifyAndAdd(s, shareArg)
 			}
-			if reuse && (err != nil || !valid || enough != (i+1 > g.t)) {
+			if reuse && (err != nil || !valid || enough != (i+1 > g.t)) && controlOK() {
 				run.Violate("C06:stateful-object-keeps-callers-buffers", fmt.Sprintf("the message buffer was overwritten after construction and shares arrive in one reused buffer: add #%d of signer %d (a valid share): valid=%v enough=%v err=%v", i, s, valid, enough, err), rep)
 				return
 			}
@@ -222,7 +235,7 @@ func (g *thrGroup) reconstructStateful(run *mon.Run, signers []int, trusted bool
 		}
 		run.Eval(1)
 		run.Count("reconstructions.stateful", 1)
-		if reuse && (err != nil || err2 != nil || !bytes.Equal(out, g.E) || !bytes.Equal(out2, g.E)) {
+		if reuse && (err != nil || err2 != nil || !bytes.Equal(out, g.E) || !bytes.Equal(out2, g.E)) && controlOK() {
 			run.Violate("C06:stateful-object-keeps-callers-buffers", fmt.Sprintf("t+1 valid shares were added from one receive buffer (overwritten by each next share) and the message buffer was overwritten after construction: ThresholdSignature (signers=%v) = %x (err %v), reference %x", signers, []byte(out), err, g.E), rep)
 			return
 		}
